@@ -133,7 +133,9 @@ def Cons.onReply (cfg : CCfg) (c : Cons) (r : Reply) : Cons × Reply × SyncComm
   if !cfg.replay && has && msgs.isEmpty then
     -- everything returned was consumed already: the stored offset lags behind; store the consumed one
     -- (fix: without it the next poll returns the same messages and the consumer never advances)
-    if cfg.autoCommitEnabled && !cfg.polling && (c.stored.get? pid).getD 0 < consumedOff then
+    -- (fix: with `next` the reply itself shows the lag, whatever this client stored before - another
+    -- member of the group may have stored an older offset since)
+    if cfg.autoCommitEnabled && !cfg.polling && ((c.stored.get? pid).getD 0 < consumedOff || c.strat == .next) then
       ({ c with stored := c.stored.set pid consumedOff }, { r with msgs := [] }, some (pid, consumedOff))
     else (c, { r with msgs := [] }, none)
   else
